@@ -211,6 +211,9 @@ def run(ck):
             ch = cg.path_to_ext([root], NONDET)
             ck.ob("EFF", root, "no-nondeterminism", ch is None, "no call path to RNG/clock/env" if ch is None else " -> ".join(ch), "")
 
+    narrowing_len_sweep(ck, crate("rs", "concordium_base"), re.compile(r"concordium_base::bulletproofs::"), re.compile(r"verify[a-z_0-9]*(::\\{closure#\\d+\\})*$"))
+
+
 
 def array_ops(f, op):
     seen = set()
